@@ -10,6 +10,9 @@ prop(
         dict(run="^TestPropMachine$",
              quick=dict(checks=400, shards=8, timeout=900, steps=30, shrinktime='8s'),
              thorough=dict(checks=12000, shards=16, timeout=7200, steps=40)),
+        dict(run="^TestPropOverlapWindows$",
+             quick=dict(checks=64, shards=8, timeout=900, shrinktime='8s'),
+             thorough=dict(checks=3200, shards=16, timeout=7200)),
         dict(run="^TestPropStress$",
              quick=dict(checks=1600, shards=8, timeout=900, shrinktime='8s'),
              thorough=dict(checks=120000, shards=16, timeout=7200)),
@@ -32,7 +35,10 @@ prop(
          "everything is released and every caller must return (quiescence rule: nothing in flight, all released, still blocked after 20 s, "
          "reproduced on a second run of the same action list), and all successful callers of a question hold equal results (answers carry a "
          "per-request nonce). Non-trivial: at some step >=2 callers of one question were unfinished while a request of it was in flight, and at some "
-         "step >=2 distinct questions were in flight together. stress: 3-12 callers x 2-6 waves of the same questions (fresh names per wave), "
+         "step >=2 distinct questions were in flight together. overlap scenario (same executor, scripted action lists): range query A over 2-3 slices and range query B over a window "
+         "that evaluates exactly the points of A's first slice (same expr and step: the only way two jobs with one key sit in the pool), concurrency = "
+         "slices+1..2, as many other questions queued as there are workers, then a slice of A fails (the shared one, or another one so that A cancels the "
+         "shared one), then drawn releases; same invariants (non-trivial there: the pool was full and the client cancelled a request). stress: 3-12 callers x 2-6 waves of the same questions (fresh names per wave), "
          "drawn per-request delays 0-3 ms, GOMAXPROCS in {1,4,16}, optionally every 4th/7th non-range request fails; same counters plus "
          "in half of the schedules cache maintenance runs concurrently (FailoverGroup.CleanCache() looping in its own goroutine, 0-400 unrelated "
          "answers cached beforehand) while every caller asks all - by then answered - questions 1-4 more times; "
